@@ -441,9 +441,9 @@ func child(a lib.Args) {
 		return
 	}
 	r := lib.NewRng(a.Seed)
-	nSrv, nCli := 1200, 260
+	nSrv, nCli := 3000, 300
 	if a.Tier == "thorough" {
-		nSrv, nCli = 12000, 2500
+		nSrv, nCli = 30000, 3000
 	}
 	rs := r.Fork()
 	for i := 0; i < nSrv && !d.lost; i++ {
